@@ -203,6 +203,10 @@ pub struct World {
     pub events: Vec<EventObj>,
     pub log: Vec<LogEntry>,
     pub faults: Vec<Fault>,
+    /// connections for which the next epoll_wait reports EPOLLIN although nothing is readable
+    /// (a spurious readiness notification, which the epoll contract allows; on Linux >= 5.15 an
+    /// out-of-band byte on an AF_UNIX stream socket produces exactly this: EPOLLIN, then EAGAIN)
+    pub spurious_in: Vec<usize>,
     pub next_order_key: u64,
     pub next_wait_eintr: bool,
     /// counters
@@ -252,6 +256,7 @@ impl World {
             events: Vec::new(),
             log: Vec::new(),
             faults: Vec::new(),
+            spurious_in: Vec::new(),
             next_order_key: 0,
             next_wait_eintr: false,
             n_syscalls: 0,
@@ -866,7 +871,14 @@ impl World {
         let mut v = Vec::new();
         for (&fd, &(interest, data)) in self.epolls[ep].interest.iter() {
             // a one-shot registration that already fired reports nothing until re-armed (interest cleared)
-            let m = self.poll_fd(fd) & ((interest & 0x3fff_ffff) | EPOLLERR | EPOLLHUP);
+            let mut m = self.poll_fd(fd) & ((interest & 0x3fff_ffff) | EPOLLERR | EPOLLHUP);
+            if interest & EPOLLIN != 0 && !self.spurious_in.is_empty() {
+                if let Some(FdObj::Stream(c)) = self.obj(fd) {
+                    if self.spurious_in.contains(&c) {
+                        m |= EPOLLIN;
+                    }
+                }
+            }
             if m == 0 {
                 continue;
             }
@@ -936,6 +948,17 @@ impl World {
             ready.sort_by_key(|r| self.obj_key(r.0));
         }
         ready.truncate(max);
+        if !self.spurious_in.is_empty() {
+            // a spurious notification is delivered once
+            for &(fd, _, _) in ready.iter() {
+                if let Some(FdObj::Stream(c)) = self.obj(fd) {
+                    if let Some(p) = self.spurious_in.iter().position(|x| *x == c) {
+                        self.spurious_in.remove(p);
+                        self.faults_fired += 1;
+                    }
+                }
+            }
+        }
         for &(fd, _, _) in ready.iter() {
             let interest = self.epolls[ep].interest.get(&fd).map(|e| e.0).unwrap_or(0);
             if interest & EPOLLET != 0 {
